@@ -234,7 +234,7 @@ Data(kind) ==
 (* no reply within SubmissionTimeout.                                      *)
 (***************************************************************************)
 Verdicts(s) ==
-  IF Lmtp THEN [1..Len(s.sList) -> {"250", "550"}] \cup {<<"stall">>}
+  IF Lmtp THEN [1..Len(s.sList) -> {"250", "550", "421"}] \cup {<<"stall">>}   \* 421 is one recipient's verdict, not the end of the replies
           ELSE {<<"250">>, <<"554">>, <<"stall">>}
 
 FirstNeg(v) == IF \E i \in 1..Len(v) : v[i] # "250"
